@@ -136,7 +136,7 @@ fn wconfigs() -> Vec<WCfg> {
     let mut out = vec![];
     for version in [2u16, 3, 4, 5] {
         for fmt64 in [false, true] {
-            for size in [4u8, 8] {
+            for size in [2u8, 4, 8] {
                 for low in 0..4u8 {
                     // endianness alternates with the other dimensions (both occur for every version/size)
                     let big = (fmt64 as u8 + low) % 2 == 1;
@@ -632,13 +632,14 @@ fn run_unit(ctx: &mut Ctx, c: &WCfg, loc: bool, lists: &[Vec<E>]) {
 
 fn single_sub(loc: bool, maxlen: u32) -> Sub {
     let cfgs = wconfigs();
+    let a2 = alphabet(loc, 2);
     let a4 = alphabet(loc, 4);
     let a8 = alphabet(loc, 8);
     let n = a4.len() as u64;
     let count = seq_count(n, 0, maxlen);
     let name = format!("write-{}-single-len<={}", if loc { "locations" } else { "ranges" }, maxlen);
     let bound = format!(
-        "every list of 0..={} entries over the {}-instance writer alphabet (BaseAddress, OffsetPair, StartEnd, StartLength{} with addresses/lengths from B(size), expressions {{empty, DW_OP_reg0, DW_OP_call4 of a unit entry}}), one list per unit, under {} configurations: version {{2,3,4,5}} x format {{32,64}} x address size {{4,8}} x unit DW_AT_low_pc {{absent, 0, 0x1000, symbol+0x800 (resolved by the writer to 0x2000)}} (endianness alternating)",
+        "every list of 0..={} entries over the {}-instance writer alphabet (BaseAddress, OffsetPair, StartEnd, StartLength{} with addresses/lengths from B(size), expressions {{empty, DW_OP_reg0, DW_OP_call4 of a unit entry}}), one list per unit, under {} configurations: version {{2,3,4,5}} x format {{32,64}} x address size {{2,4,8}} x unit DW_AT_low_pc {{absent, 0, 0x1000, symbol+0x800 (resolved by the writer to 0x2000)}} (endianness alternating)",
         maxlen,
         n,
         if loc { ", DefaultLocation" } else { "" },
@@ -648,11 +649,16 @@ fn single_sub(loc: bool, maxlen: u32) -> Sub {
         let idx = seq_decode(n, 0, maxlen, i);
         let l4: Vec<E> = idx.iter().map(|&k| a4[k].clone()).collect();
         let l8: Vec<E> = idx.iter().map(|&k| a8[k].clone()).collect();
+        let l2: Vec<E> = idx.iter().map(|&k| a2[k].clone()).collect();
         for e in &l4 {
             ctx.outcome(&format!("kind:{}:{}", if loc { "loc" } else { "range" }, e.kind()));
         }
         for c in &cfgs {
-            let l = if c.size == 4 { &l4 } else { &l8 };
+            let l = match c.size {
+                2 => &l2,
+                4 => &l4,
+                _ => &l8,
+            };
             run_unit(ctx, c, loc, std::slice::from_ref(l));
         }
         ctx.nontriv(1);
@@ -661,6 +667,7 @@ fn single_sub(loc: bool, maxlen: u32) -> Sub {
 
 fn multi_sub(loc: bool, nlists: u32, pool_len: u32) -> Sub {
     let cfgs = wconfigs();
+    let a2 = small_alphabet(loc, 2);
     let a4 = small_alphabet(loc, 4);
     let a8 = small_alphabet(loc, 8);
     let n = a4.len() as u64;
@@ -683,8 +690,18 @@ fn multi_sub(loc: bool, nlists: u32, pool_len: u32) -> Sub {
         }
         let m4: Vec<Vec<E>> = idxs.iter().map(|ix| ix.iter().map(|&k| a4[k].clone()).collect()).collect();
         let m8: Vec<Vec<E>> = idxs.iter().map(|ix| ix.iter().map(|&k| a8[k].clone()).collect()).collect();
+        let m2: Vec<Vec<E>> = idxs.iter().map(|ix| ix.iter().map(|&k| a2[k].clone()).collect()).collect();
         for c in &cfgs {
-            run_unit(ctx, c, loc, if c.size == 4 { &m4 } else { &m8 });
+            run_unit(
+                ctx,
+                c,
+                loc,
+                match c.size {
+                    2 => &m2,
+                    4 => &m4,
+                    _ => &m8,
+                },
+            );
         }
         ctx.nontriv(1);
     })
